@@ -126,6 +126,9 @@ class RunTaskExecutable(Operation):
             stderr_output.maybe_tee(process.stderr, sys.stderr, ctx)
 
             handle = OperationExecutionHandle.from_async_process(pid=process.pid)
+            # Keep the `Popen` object alive until the process has been reaped.
+            # Otherwise `subprocess` may reap the process on our behalf.
+            handle.process = process
             handle.stdout = stdout_output
             handle.stderr = stderr_output
             return handle
